@@ -52,6 +52,15 @@ TOKEN_IDS = {T.SOF: 0, T.EOF: 1, T.ExclamationMark: 2, T.Dollar: 3, T.ParenOpen:
 ENTRIES = {"doc": "EDoc", "value": "EValue", "type": "EType", "lex": "ELex"}
 
 
+LEXICAL_ERRORS = [
+    '{ a(x: "abc', '{ a(x: "abc\n") }', r'{ a(x: "\q") }', r'{ a(x: "\u12G4") }', r'{ a(x: "\u12',
+    '{ a(x: "a\x07b") }', '{ a(x: """abc', '{ a(x: """a\x07b""") }', '{ a(x: 01) }', '{ a(x: 1.) }',
+    '{ a(x: 1.e1) }', '{ a(x: 1e) }', '{ a(x: 1e+) }', '{ a(x: -) }', '{ a(x: -a) }', '{ a(x: 1a) }',
+    '{ a(x: 1.5a) }', '{ a(x: 1.5.) }', '{ a ? }', '{ a .. }', '{ a . }', '{ \x00 }', '{ a \x7f }',
+    '{ a(x: "\\', '# c\x07\n{ a }', '{ a ~ }', '\ufeff{ a \ufeff }', '{ a(x: 0x1) }', '{ a(x: 1_0) }',
+    '{ a ..', '{ a .', '{ a(x: -', '{ a(x: 1.', '{ a(x: 1e', '{ a(x: 1e-', '{ a(x: "\\u', '{ a(x: """a\\']
+
+
 def case(entry, flags, text, origin):
     return {"entry": entry, "flags": list(flags), "text": text, "origin": origin}
 
@@ -211,6 +220,11 @@ def generate(rng, tier):
             continue
         for flags in G.FLAG_TRIPLES:
             out.append(case("doc", flags, text, "enum:production-" + label))
+    # one text per lexical error site, inside a document, under all 8 flag triples
+    for text in LEXICAL_ERRORS:
+        for flags in G.FLAG_TRIPLES:
+            out.append(case("doc", flags, text, "enum:lexical-error"))
+            out.append(case("doc", flags, "scalar S " + text, "enum:lexical-error"))
     return out
 
 
@@ -430,12 +444,11 @@ def extra_evidence(cases, obss):
     sites = {"static_raise_statements": len(static),
              "reached_with_locations": len(reached[False] & set(static)),
              "reached_with_no_location": len(reached[True] & set(static)),
-             "parser_sites_not_reached_with_locations":
-                 [x for x in static if x.startswith("parser") and x not in reached[False]],
-             "parser_sites_not_reached_with_no_location":
-                 [x for x in static if x.startswith("parser") and x not in reached[True]],
-             "lexer_sites_not_reached": [x for x in static if x.startswith("lexer")
-                                         and x not in (reached[False] | reached[True])]}
+             "not_reached_with_locations": [x for x in static if x not in reached[False]],
+             "not_reached_with_no_location": [x for x in static if x not in reached[True]],
+             "note": "parser.py _advance_window (UnexpectedEOF on an empty buffer) and the last line of "
+                     "parse_executable_definition are unreachable through parse(); the raise in "
+                     "Lexer.__next__ is StopIteration"}
     return {"raise_sites": sites, "distribution": {"origins": origins, "verdict_by_stream": verdicts, "error_classes": kinds,
                              "entries": entries, "flag_triples": flags,
                              "non_ascii_texts": sum(1 for c in cases if any(ord(ch) > 127 for ch in c["text"]))}}
